@@ -17,6 +17,17 @@ class PathExplosion(Exception):
     pass
 
 
+class Dec(list):
+    """list of (atom, value) decisions that also remembers at which position of the path's block list each one was taken"""
+
+    def __init__(self, items=(), pos=()):
+        list.__init__(self, items)
+        self.pos = list(pos)
+
+    def plus(self, item, pos):
+        return Dec(list(self) + [item], self.pos + [pos])
+
+
 def _sym_of_operand(fn, env, op):
     if op["k"] == "const":
         if "v" in op:
@@ -153,14 +164,15 @@ def paths(fn, max_paths=4000, max_loop=1):
                 r = norm(ex.rvalue(st["rv"], lastret))
             elif effects and effects[-1][3]:
                 r = effects[-1][4]
-            out.append(dict(decisions=list(decisions), effects=[e[:3] for e in effects], ret=r, end="return", blocks=blocks))
+            out.append(dict(decisions=list(decisions), effects=[e[:3] for e in effects], ret=r, end="return", blocks=blocks,
+                            dpos=list(decisions.pos), epos=[e[5] for e in effects]))
             return
         if t["k"] == "call":
             args = [norm(ex.operand(a, (bb, None))) for a in t["args"]]
             callee = t.get("callee") or "<indirect>"
             to_ret = t["dest"]["l"] == 0 and not t["dest"]["p"]
             callx = norm(ex._call_value(t, (bb, None), 0))
-            effects = effects + [(bb, callee, args, to_ret, callx)]
+            effects = effects + [(bb, callee, args, to_ret, callx, len(visited))]
             if not t["dest"]["p"]:
                 env[t["dest"]["l"]] = ("expr", show(callx))
                 if callee.endswith("FromResidual::from_residual"):
@@ -174,7 +186,8 @@ def paths(fn, max_paths=4000, max_loop=1):
                 if to_ret:
                     lastret = None
             if t.get("target") is None:
-                out.append(dict(decisions=list(decisions), effects=[e[:3] for e in effects], ret=None, end="diverge", blocks=blocks))
+                out.append(dict(decisions=list(decisions), effects=[e[:3] for e in effects], ret=None, end="diverge", blocks=blocks,
+                                dpos=list(decisions.pos), epos=[e[5] for e in effects]))
                 return
             nxt = [t["target"]]
         elif t["k"] == "switch":
@@ -257,7 +270,7 @@ def paths(fn, max_paths=4000, max_loop=1):
                 tb = fn.term(b)
                 if tb is not None and tb["k"] == "unreachable":
                     continue
-                _follow(bb, b, env, decisions + [(dname, val)], effects, lastret, blocks, loopcount)
+                _follow(bb, b, env, decisions.plus((dname, val), len(visited)), effects, lastret, blocks, loopcount)
             return
         elif t["k"] in ("goto", "drop", "assert"):
             nxt = [t["target"]]
@@ -274,12 +287,12 @@ def paths(fn, max_paths=4000, max_loop=1):
                 return
             lc = dict(loopcount)
             lc[(frm, to)] = c + 1
-            decisions = decisions + [("#iter", c + 1)]
+            decisions = decisions.plus(("#iter", c + 1), len(blocks))
         go(to, env, decisions, effects, lastret, blocks, lc)
 
     import sys
     sys.setrecursionlimit(20000)
-    go(0, {}, [], [], None, [], {})
+    go(0, {}, Dec(), [], None, [], {})
     return out
 
 
